@@ -4,6 +4,7 @@ package factory
 
 import (
 	"github.com/go-kid/ioc/component_definition"
+	"github.com/go-kid/ioc/configure"
 	"github.com/go-kid/ioc/container"
 	"github.com/go-kid/ioc/container/processors"
 	"github.com/go-kid/ioc/container/support"
@@ -56,6 +57,7 @@ type vPP struct{ vAttr }
 
 func (p *vPP) M1() int           { return p.id }
 func (p *vPP) Primary()          {}
+func (p *vPP) Hook()             {}
 func (p *vPP) Naming() string    { return p.nm }
 func (p *vPP) Qualifier() string { return p.q }
 
@@ -115,7 +117,7 @@ func vAttrOf(c any) (vAttr, int) {
 // static facts about the provider types (the oracle's specification)
 var vImplI1 = [nProviderTypes]bool{tPA: true, tPB: true, tPC: false, tPP: true, tZA: true, tZB: true}
 var vIsPA = [nProviderTypes]bool{tPA: true}
-var vHookNoResult = [nProviderTypes]bool{tPA: true}
+var vHookNoResult = [nProviderTypes]bool{tPA: true, tPP: true}
 var vHasQualifier = [nProviderTypes]bool{tPA: true, tPB: true, tPC: false, tPP: true}
 var vIsPrimary = [nProviderTypes]bool{tPP: true}
 
@@ -160,6 +162,19 @@ type vHSelfSlice struct {
 
 func (h *vHSelfSlice) M1() int { return -1 }
 
+// the injection point sits in an embedded struct that is not the component's first field;
+// the component itself implements the element type
+type vHInner struct {
+	F []vI1 `wire:""`
+}
+type vHEmbedded struct {
+	nm string
+	vHInner
+}
+
+func (h *vHEmbedded) M1() int        { return -1 }
+func (h *vHEmbedded) Naming() string { return h.nm }
+
 func (h *vHPtr) Naming() string        { return h.nm }
 func (h *vHIface) Naming() string      { return h.nm }
 func (h *vHPtrSlice) Naming() string   { return h.nm }
@@ -178,19 +193,23 @@ const (
 	kFunc
 	kSelf
 	kSelfSlice
+	kEmbeddedSelfSlice
 	nKinds
 )
 
 type vStubFactory struct {
 	container.Factory
 	reg container.DefinitionRegistry
+	cfg configure.Configure
 }
 
 func (s *vStubFactory) GetDefinitionRegistry() container.DefinitionRegistry { return s.reg }
+func (s *vStubFactory) GetConfigure() configure.Configure                   { return s.cfg }
 
 type vRH struct {
 	f       *defaultFactory
 	scanner []container.DefinitionRegistryPostProcessor
+	cfg     *vRHCfg
 }
 
 func newRH() *vRH { return newRHOrder(nd.Param("PORDER", 1) == 1) }
@@ -205,22 +224,24 @@ func newRHOrder(orderMix bool) *vRH {
 	dep := processors.NewDependencyAwarePostProcessors()
 	fn := processors.NewDependencyFunctionAwarePostProcessors()
 	fm := processors.NewDependencyFurtherMatchingProcessors()
-	sf := &vStubFactory{reg: f.definitionRegistry}
-	for _, p := range []any{dep, fn} {
+	cfg := &vRHCfg{}
+	cq := processors.NewConfigQuoteAwarePostProcessors()
+	sf := &vStubFactory{reg: f.definitionRegistry, cfg: cfg}
+	for _, p := range []any{dep, fn, cq} {
 		err := p.(container.ComponentFactoryPostProcessor).PostProcessComponentFactory(sf)
 		nd.Assert(err == nil, "factory post-processing ok")
 	}
 	// registration order of the three processors is arbitrary
-	ps := []container.ComponentPostProcessor{dep, fn, fm}
+	ps := []container.ComponentPostProcessor{dep, fn, fm, cq}
 	if orderMix && nd.Bool() {
-		ps = []container.ComponentPostProcessor{fm, fn, dep}
+		ps = []container.ComponentPostProcessor{cq, fm, fn, dep}
 	}
 	for _, p := range ps {
 		f.postProcessorRegistrationDelegate.RegisterComponentPostProcessors(p, "p")
 	}
 	err := f.postProcessorRegistrationDelegate.InvokeBeanFactoryPostProcessors(f, nil)
 	nd.Assert(err == nil, "processor registration ok")
-	return &vRH{f: f, scanner: []container.DefinitionRegistryPostProcessor{dep.(container.DefinitionRegistryPostProcessor), fn.(container.DefinitionRegistryPostProcessor)}}
+	return &vRH{f: f, cfg: cfg, scanner: []container.DefinitionRegistryPostProcessor{dep.(container.DefinitionRegistryPostProcessor), fn.(container.DefinitionRegistryPostProcessor)}}
 }
 
 func (r *vRH) register(c any, name string) *component_definition.Meta {
@@ -282,6 +303,16 @@ func vHolder(kind int) (any, func() any, func() []any) {
 			return h.F
 		}, nil
 	}
+	if kind == kEmbeddedSelfSlice {
+		h := &vHEmbedded{nm: "holder"}
+		return h, nil, func() []any {
+			var o []any
+			for _, e := range h.F {
+				o = append(o, e)
+			}
+			return o
+		}
+	}
 	h := &vHSelfSlice{nm: "holder"}
 	return h, nil, func() []any {
 		var o []any
@@ -297,7 +328,7 @@ func vCompatible(kind, t int) bool {
 	switch kind {
 	case kPtr, kPtrSlice:
 		return vIsPA[t]
-	case kIface, kIfaceSlice, kSelf, kSelfSlice:
+	case kIface, kIfaceSlice, kSelf, kSelfSlice, kEmbeddedSelfSlice:
 		return vImplI1[t]
 	case kAny:
 		return true
@@ -514,6 +545,61 @@ func VerifC07Register() {
 	}
 }
 
+// a holder that is wired by name to another component of its own Go type
+type vHPeer struct {
+	nm string
+	F  *vHPeer `wire:""`
+}
+
+func (h *vHPeer) Naming() string { return h.nm }
+
+type vRHCfg struct {
+	configure.Configure
+	key, val string
+}
+
+func (c *vRHCfg) Get(path string) any {
+	if path == c.key {
+		return c.val
+	}
+	return nil
+}
+
+// by name among several components of the holder's own type (told apart only by their names)
+func VerifC07Peers() {
+	r := newRHOrder(false)
+	h := &vHPeer{nm: "holder"}
+	p1, p2 := &vHPeer{nm: "p1"}, &vHPeer{nm: "p2"}
+	hm := r.register(h, "holder")
+	r.register(p1, "p1")
+	r.register(p2, "p2")
+	req := []string{"p1", "p2", "holder", "nobody"}[nd.Choose(4)]
+	optional := nd.Bool()
+	for _, pr := range hm.GetComponentProperties() {
+		pr.TagVal = req
+		if optional {
+			pr.SetArg(component_definition.ArgRequired, "false")
+		}
+	}
+	_, err := r.f.doGetComponent("holder")
+	switch req {
+	case "p1", "p2":
+		nd.Cover("peer of the holder's own type")
+		nd.Assert(err == nil, "C07: start-up succeeds when the named component exists and is assignable")
+		want := p1
+		if req == "p2" {
+			want = p2
+		}
+		nd.Assert(h.F == want, "C07: the point receives exactly the named component, no matter how many others share its type")
+	default:
+		if optional {
+			nd.Assert(err == nil && h.F == nil, "C07: an optional by-name point that cannot be satisfied is left untouched")
+		} else {
+			nd.Assert(err != nil, "C07: a required by-name point that only its holder (or nobody) could satisfy is reported as an error")
+		}
+	}
+}
+
 func VerifC07() {
 	k := nd.Param("K", 2)
 	kind := []int{kPtr, kIface, kAny}[nd.Choose(3)]
@@ -550,8 +636,16 @@ func VerifC07() {
 	default:
 		req = "holder"
 	}
+	viaPlaceholder := nd.Bool()
 	for _, pr := range hm.GetComponentProperties() {
-		pr.TagVal = req
+		if viaPlaceholder {
+			// wire:"${which}": the configured value names the component
+			nd.Cover("name given through a placeholder")
+			pr.TagStr, pr.TagVal = "${which}", "${which}"
+			r.cfg.key, r.cfg.val = "which", req
+		} else {
+			pr.TagVal = req
+		}
 		if optional {
 			pr.SetArg(component_definition.ArgRequired, "false")
 		}
@@ -612,6 +706,22 @@ type vH8d struct {
 	C  vI1   `wire:""`
 }
 
+// func-tag points take part in qualifier / primary narrowing like wire points
+type vH8f struct {
+	nm string
+	A  []any `func:"Hook"`
+	B  any   `func:"Hook"`
+}
+
+func (h *vH8f) Naming() string { return h.nm }
+
+// one qualified single-valued field (used with three candidates)
+type vH8s struct {
+	nm string
+	A  vI1 `wire:""`
+}
+
+func (h *vH8s) Naming() string { return h.nm }
 func (h *vH8a) Naming() string { return h.nm }
 func (h *vH8b) Naming() string { return h.nm }
 func (h *vH8c) Naming() string { return h.nm }
@@ -623,6 +733,7 @@ type vFieldView struct {
 	single func() any
 	multi  func() []any
 	nocand bool // declared type has no implementer at all
+	hook   bool // func-tag point: candidates are the components exposing Hook() without result
 }
 
 func ifaceOrNil(v vI1) any {
@@ -644,7 +755,11 @@ func VerifC08() {
 	r := newRH()
 	var h any
 	var fields []vFieldView
-	switch nd.Choose(nd.Param("SHAPES", 4)) {
+	shape := nd.Param("ONLY", -1)
+	if shape < 0 {
+		shape = nd.Choose(nd.Param("SHAPES", 4))
+	}
+	switch shape {
 	case 0:
 		x := &vH8a{nm: "holder"}
 		h = x
@@ -662,6 +777,15 @@ func VerifC08() {
 		x := &vH8c{nm: "holder"}
 		h = x
 		fields = []vFieldView{{name: "A", slice: true, multi: func() []any { return ifaceSlice(x.A) }}, {name: "B", single: func() any { return ifaceOrNil(x.B) }}}
+	case 5:
+		x := &vH8s{nm: "holder"}
+		h = x
+		fields = []vFieldView{{name: "A", single: func() any { return ifaceOrNil(x.A) }}}
+	case 4:
+		x := &vH8f{nm: "holder"}
+		h = x
+		fields = []vFieldView{{name: "A", slice: true, hook: true, multi: func() []any { return x.A }}, {name: "B", hook: true, single: func() any { return x.B }}}
+		nd.Cover("func-tag points")
 	default:
 		x := &vH8d{nm: "holder"}
 		h = x
@@ -720,7 +844,11 @@ func VerifC08() {
 			continue
 		}
 		for j := range ps {
-			if !vImplI1[ts[j]] {
+			if fv.hook {
+				if !vHookNoResult[ts[j]] {
+					continue
+				}
+			} else if !vImplI1[ts[j]] {
 				continue
 			}
 			a, _ := vAttrOf(ps[j])
